@@ -27,6 +27,12 @@ def defs(k, rot):
     return A, B, C
 
 
+ANON_A = ["struct", "A", [["a", G.U8, None], [None, ["struct", "", [["ax", G.U8, None], ["ay", G.U16, None]], True], None], ["d", G.U32, None]], False]
+ANON_B = ["struct", "B", [["p", G.U8, None], [None, ["struct", "", [["px", G.U8, None], ["py", G.U16, None]], True], None], ["s", G.U32, None]], False]
+ANON_C = ["struct", "C", [["d", G.U8, None], [None, ["struct", "", [["ay", G.U8, None], ["ax", G.U16, None]], True], None], ["a", G.U32, None]], False]
+ANON_U = ["struct", "A", [["a", G.U8, None], [None, ["union", "", [["ux", G.U16, None], ["uy", G.arr(G.U8, 2), None]], True], None]], False]
+
+
 def load_all(Ts, cfg):
     from dissect.cstruct import cstruct
     cs = cstruct(endian=cfg["endian"])
@@ -43,6 +49,13 @@ def load_all(Ts, cfg):
 def build(ctx, T, cls, L, tag):
     kw, ref = {}, {}
     for f, (fname, FT, bits) in zip(cls.__fields__, T[2]):
+        if fname is None:
+            # anonymous member: built explicitly (its fields are reached through the outer instance afterwards)
+            ikw, iref = build(ctx, ["struct", "", FT[2] if FT[0] == "struct" else FT[2][:1], True], f.type, L, tag + "_anon")
+            kw[f._name] = f.type(**ikw)
+            ref.update(iref)
+            ref["<anon>"] = (FT, f._name)
+            continue
         if bits:
             v = ctx.int(f"{tag}_{fname}", 0, (1 << bits) - 1)
             kw[fname], ref[fname] = (f.type(v) if FT[0] == "enum" else v), v
@@ -57,6 +70,15 @@ def build(ctx, T, cls, L, tag):
 def ref_eq(T, x, y):
     """Reference values equal?"""
     k = T[0]
+    if k == "struct" and any(f[0] is None for f in T[2]):
+        cs = []
+        for fn, FT, _ in T[2]:
+            if fn is None:
+                inner = FT[2] if FT[0] == "struct" else FT[2][:1]
+                cs += [ref_eq(IT, x[n], y[n]) for n, IT, _ in inner]
+            else:
+                cs.append(ref_eq(FT, x[fn], y[fn]))
+        return R.And(*cs)
     if k in ("int", "enum", "ptr", "leb"):
         return x == y
     if k == "char":
@@ -79,7 +101,14 @@ def ref_truthy(T, x):
     if k == "arr":
         return L_static(T) > 0
     if k == "struct":
-        return R.Or(*[ref_truthy(FT, x[fn]) for fn, FT, _ in T[2]]) if T[2] else False
+        cs = []
+        for fn, FT, _ in T[2]:
+            if fn is None:
+                inner = FT[2] if FT[0] == "struct" else FT[2][:1]
+                cs += [ref_truthy(IT, x[n]) for n, IT, _ in inner]
+            else:
+                cs.append(ref_truthy(FT, x[fn]))
+        return R.Or(*cs) if cs else False
     raise ValueError(T)
 
 
@@ -149,6 +178,38 @@ def make(case):
     return run
 
 
+def make_anon(case):
+    """Equality, hash and truthiness cover the fields of anonymous members."""
+    cfg = case["cfg"]
+    cs = load_all([ANON_A, ANON_B, ANON_C], cfg)
+    cA, cB = cs.A, cs.B
+    L = H.layout(cfg)
+    part = case["part"]
+
+    def run(ctx):
+        kwa, ra = build(ctx, ANON_A, cA, L, "x")
+        a = cA(**kwa)
+        if part == "eq":
+            kwb, rb = build(ctx, ANON_A, cA, L, "y")
+            b = cA(**kwb)
+            all_eq = ref_eq(ANON_A, ra, rb)
+            eq = (a == b)
+            ctx.observe("eq", eq)
+            ctx.check("a == b exactly when all fields (those of anonymous members included) are equal", all_eq if eq else R.Not(all_eq))
+            ctx.check("a != b exactly when some field differs", R.Not(all_eq) if (a != b) else all_eq)
+            try:
+                ctx.check("equal instances hash equally", R.Implies(all_eq, hash(a) == hash(b)))
+            except TypeError:
+                ctx.observe("hash", "unhashable")
+            ctx.check("fields of the anonymous member are reachable on the instance", R.And(a.ax == ra["ax"], a.ay == ra["ay"]))
+        else:
+            truthy = ref_truthy(ANON_A, ra)
+            t = bool(a)
+            ctx.observe("bool", t)
+            ctx.check("falsy exactly when all fields (those of anonymous members included) are falsy", truthy if t else R.Not(truthy))
+    return run
+
+
 def make_assign(case):
     """Assigning one field changes exactly that field's bytes in the dump."""
     T, cfg = case["T"], case["cfg"]
@@ -173,10 +234,83 @@ def make_assign(case):
                 targets.append((path + [fname], FT, base + off, L.size_align(FT)[0], None, f.type))
     walk(T, 0, [], cls)
 
+    fresh = case.get("fresh", False)
+
     def run(ctx):
+        if fresh:
+            # default-constructed instance of a fresh universe (defaults are shared between instances, C14's subject)
+            cls1 = H.load(T, dict(cfg, compiled=False))[1]
+            v = cls1()
+            tg = []
+
+            def walk1(T1, base, path, libcls):
+                offs, _, _ = L.struct_layout(T1)
+                for (fname, FT, bits), (off, used), f in zip(T1[2], offs, libcls.__fields__):
+                    if FT[0] == "struct":
+                        walk1(FT, base + off, path + [fname], f.type)
+                    elif not bits and FT[0] != "void":
+                        tg.append((path + [fname], FT, base + off, L.size_align(FT)[0], None, f.type))
+            walk1(T, 0, [], cls1)
+            d0 = v.dumps()
+            j = ctx.choose("field", len(tg))
+            path, FT, off, nb, bitinfo, libt = tg[j]
+            ctx.observe("field", ".".join(path))
+            lv, y = sym_value(ctx, FT, L, "y", libt)
+            obj = v
+            for name in path[:-1]:
+                obj = getattr(obj, name)
+            setattr(obj, path[-1], lv)
+            d1 = v.dumps()
+            eb, emask = enc.encode(FT, y)
+            ctx.check("default instance: the field's bytes carry the new value",
+                      R.And(*[(d1[off + i] & emask[i]) == (eb[i] & emask[i]) for i in range(nb)]))
+            outside = [i for i in range(size) if not off <= i < off + nb]
+            ctx.check("default instance: every byte outside the assigned field is unchanged (members of the same type are distinct objects)",
+                      R.And(*[d1[i] == d0[i] for i in outside]) if outside else True)
+            # in-place element assignment of an array member
+            arrs = [t for t in tg if t[1][0] == "arr" and t[1][1][0] == "int"]
+            if arrs:
+                k2 = ctx.choose("arr", len(arrs))
+                apath, AT, aoff, anb, _, alib = arrs[k2]
+                es = L.size_align(AT[1])[0]
+                lo, hi = R.int_range(es, AT[1][2])
+                z = ctx.int("z", lo, hi)
+                before = v.dumps()
+                o2 = v
+                for name in apath:
+                    o2 = getattr(o2, name)
+                o2[0] = z
+                after = v.dumps()
+                outside2 = [i for i in range(size) if not aoff <= i < aoff + es]
+                ctx.check("default instance: in-place element assignment touches that element only",
+                          R.And(*[after[i] == before[i] for i in outside2]))
+            return
         data = ctx.bytes("b", size)
         v = cls.read(ctx.stream(data))
         d0 = v.dumps()
+        if case.get("strchar"):
+            # a str assigned to a char array is written as latin-1, one byte per character
+            cands = [t for t in targets if t[1][0] == "arr" and t[1][1][0] == "char" and not t[4]]
+            path, FT, off, nb, _, libt = cands[0]
+            raw = ctx.bytes("s", nb)
+            if ctx.symbolic:
+                sval = rt.SStr([rt.z3.ZeroExt(8, rt.b8(i)) if type(i) is not int else i for i in raw.items])
+            else:
+                sval = bytes(raw).decode("latin-1")
+            obj = v
+            for name in path[:-1]:
+                obj = getattr(obj, name)
+            try:
+                setattr(obj, path[-1], sval)
+                d1 = v.dumps()
+            except Exception as e:  # noqa: BLE001
+                ctx.check("assigning a str to a char array and dumping works", False, H.classify(e))
+                return
+            ctx.check("str assigned to char[N]: dump length unchanged", len(d1) == len(d0), f"{len(d1)} vs {len(d0)}")
+            if len(d1) == len(d0):
+                ctx.check("str assigned to char[N]: one latin-1 byte per character", R.And(*[d1[off + i] == raw[i] for i in range(nb)]))
+                ctx.check("str assigned to char[N]: other bytes unchanged", R.And(*[d1[i] == d0[i] for i in range(size) if not off <= i < off + nb]))
+            return
         j = ctx.choose("field", len(targets))
         path, FT, off, nb, bitinfo, libt = targets[j]
         ctx.observe("field", ".".join(path))
@@ -246,3 +380,10 @@ def cases(tier, seed):
     for label, fields in ASSIGN_DEFS:
         for cfg in cfgs:
             yield {"label": f"assign {label}", "T": ["struct", "test", fields, False], "cfg": cfg, "make": "make_assign"}
+    twins = [["start", G.INNER, None], ["end", G.INNER, None], ["left", G.arr(G.U16, 2), None], ["right", G.arr(G.U16, 2), None],
+             ["a", G.U8, None], ["b", G.U8, None]]
+    for cfg in cfgs:
+        yield {"label": "assign default-constructed twins", "T": ["struct", "test", twins, False], "cfg": cfg, "make": "make_assign", "fresh": True}
+        yield {"label": "assign str to char array", "T": ["struct", "test", ASSIGN_DEFS[0][1], False], "cfg": cfg, "make": "make_assign", "strchar": True}
+        for part in ("eq", "bool"):
+            yield {"label": f"anonymous member {part}", "cfg": cfg, "part": part, "make": "make_anon"}
